@@ -665,6 +665,11 @@ REFINED = [
     "<IBig as BitTest>::bit_len as REGENERATED text (Gen/IntBits.IBig_bit_len: `self.as_sign_repr().1.bit_len()`) = bit length of |x| "
     "(sign ignored), every bit at a position >= bit_len is the sign bit, the bit below is its complement except at x = -2^(L-1); "
     "composed with the executed magnitude model = the driver's `i.bitlen` output (Props/C09BitLen.lean)",
+    # round 8
+    "two's complement IS the number system of C01's arithmetic (link by import, Props/C09Arith.lean): on the executed models of both properties, "
+    "every W >= 1, every canonical operand, every ownership form: -x = !x + 1, x - y = x + !y + 1, !x = (-x) - 1, !!x = x, "
+    "(x & y) + (x | y) = x + y, (x ^ y) + (x & y) + (x & y) = x + y (and the last two for the specification functions on all integers: "
+    "Proofs/Int/BitsArith.lean)",
 ]
 # empty: every clause has its full theorem about the executed model, and the three pieces round 5 listed as "hand-mirrored only" (Tie A note:
 # next_power_of_two_large, Repr::ones heap arm, the `match (self, rhs)` operator dispatch) are regenerated + proved since round 6
@@ -752,7 +757,10 @@ THEOREMS = ["Dashu.Props.C09." + n for n in [
                                             "model_ibig_trailing"]] + [
     "Dashu.Props.GenShiftDispatch." + n for n in ["gen_shl_dispatch", "gen_shr_dispatch"]] + [
     "Dashu.Props.C09BitLen." + n for n in ["gen_ibig_bit_len", "sign_bits_above", "top_bit_below", "gen_ibig_bit_len_sign_bits",
-                                           "specK_meets_bit_len", "modelK_meets_bit_len", "model_ibig_bit_len"]]
+                                           "specK_meets_bit_len", "modelK_meets_bit_len", "model_ibig_bit_len"]] + [
+    "Dashu.Props.C09Arith." + n for n in ["scanon_is_wf", "neg_is_not_plus_one", "sub_is_add_not_plus_one", "not_is_neg_minus_one",
+                                          "not_not_and_not_neg", "neg_bits", "and_plus_or_is_add", "xor_plus_carries_is_add",
+                                          "neg_of_int"]]
 
 # Tie A: the IBig bit-operator sign tables are regenerated from integer/src/bits.rs on every run
 # (lean/Dashu/Gen/Glue.lean) and proved equal to the same specification as the hand model's tables
@@ -836,6 +844,12 @@ GEN_AUDIT += ["Dashu.Audit.GenShiftDispatch"]
 # prints for `i.bitlen`
 GEN_PROPS += ["Dashu.Props.C09BitLen"]
 GEN_AUDIT += ["Dashu.Audit.C09BitLen"]
+# LINK C09 <-> C01 (round 8): the two's-complement identities between C09's executed bit models and C01's executed + / - / unary - (kernels by
+# import: Props.C09.ibig_not / ibig_and / ibig_or / ibig_xor, Props.C01.i_add_exact / i_sub_exact / i_neg_exact / of_int_exact): -x = !x + 1,
+# x - y = x + !y + 1, !x = (-x) - 1, !!x = x, (x & y) + (x | y) = x + y, (x ^ y) + (x & y) + (x & y) = x + y; SCanon (C09) is SRepr.WF (C01).
+# Imports Props/C01 (which is over the regenerated Gen/Int glue), hence rebuilt on every run
+GEN_PROPS += ["Dashu.Props.C09Arith"]
+GEN_AUDIT += ["Dashu.Audit.C09Arith"]
 
 LEVEL_TEXT = ("Machine-checked Lean 4 theorems, for every word size and operand length, that the sign-case tables of & | ^ ! "
               "(also as regenerated from integer/src/bits.rs on every run) "
@@ -867,6 +881,8 @@ LEVEL_TEXT = ("Machine-checked Lean 4 theorems, for every word size and operand 
               "methods' specification, which the executed magnitude model is proved to meet (modelK_meets). "
               "Round 7: IBig::bit_len, the last regenerated sign-level function without a theorem, = bit length of |x| with its two's-complement "
               "reading (sign bits from bit_len on) and the link to the executed model (Props/C09BitLen). "
+              "Round 8: link to C01's proved arithmetic kernel — C09's ! & | ^ composed with C01's + - neg satisfy -x = !x + 1, x - y = x + !y + 1, "
+              "(x & y) + (x | y) = x + y, (x ^ y) + 2 (x & y) = x + y on the executed models, all signs and lengths (Props/C09Arith). "
               "Shift counts / bit positions up to usize::MAX are driven through every operation that is cheap there, and through the "
               "allocating ones (<<, set_bit, ones) in the two classes that are cheap (zero operand; request above Buffer::MAX_CAPACITY "
               "-> AllocTooMuch). 571 listed code arms (arm(case)) are all reached by both tiers.")
